@@ -598,3 +598,33 @@ def case_scatter_permuted():
 
 
 CASES["scatter_permuted"] = case_scatter_permuted
+
+
+def case_scatter_dynamic_shape_attrs():
+    """ScatterND over Range(0, Gather(Shape(data, start, end), axis)) with Shape attributes the rule's pattern may leave open."""
+    import onnx_ir as ir
+    from onnxscript.rewriter.rules.common import _redundant_scatter_nd as R
+
+    def c(name, arr):
+        return helper.make_node("Constant", [], [name], value=numpy_helper.from_array(np.asarray(arr, dtype=np.int64), name))
+    bad = 0
+    for sattrs, axis, dshape, tshape, ushape in (({"start": 0, "end": -1}, -1, (3, 2, 3), (3, 4), (2, 4)), ({"start": 1}, 0, (3, 2), (3, 2), (2, 2)),
+                                                 ({"start": 0}, 0, (3, 2), (3, 2), (3, 2))):
+        nodes = [helper.make_node("Shape", ["data"], ["shape"], **sattrs), c("axis", axis), helper.make_node("Gather", ["shape", "axis"], ["dim"], axis=0),
+                 c("zero", 0), c("one", 1), helper.make_node("Range", ["zero", "dim", "one"], ["rng"]), c("m1", [-1]),
+                 helper.make_node("Unsqueeze", ["rng", "m1"], ["idx"]), helper.make_node("ScatterND", ["t", "idx", "updates"], ["y"], reduction="none")]
+        g = helper.make_graph(nodes, "g", [vi("data", TensorProto.FLOAT, list(dshape)), vi("t", TensorProto.FLOAT, list(tshape)), vi("updates", TensorProto.FLOAT, list(ushape))],
+                              [vi("y", TensorProto.FLOAT, list(tshape))])
+        m = helper.make_model(g, opset_imports=[helper.make_opsetid("", 18)], ir_version=9)
+        f = {"data": np.zeros(dshape, np.float32), "t": np.zeros(tshape, np.float32), "updates": np.ones(ushape, np.float32)}
+        a = np.asarray(run(m, f)[0])
+        mm = ir.serde.deserialize_model(m)
+        n = R.rules.apply_to_model(mm)
+        b = np.asarray(run(ir.serde.serialize_model(mm), f)[0])
+        if a.shape != b.shape or not np.array_equal(a, b):
+            print(f"ScatterND(t{list(tshape)}, Range(0, Gather(Shape(data{list(dshape)}, {sattrs}), {axis})), updates{list(ushape)}): rule applied {n}x; original output shape {a.shape}, rewritten {b.shape}")
+            bad += 1
+    return bad
+
+
+CASES["scatter_dynamic_shape_attrs"] = case_scatter_dynamic_shape_attrs
